@@ -345,6 +345,8 @@ class Registry:
             return VStr(z3.String(fresh_name(name)))
         if typ == "none":
             return VNone
+        if typ == "truth":
+            return VOpaque(fresh_name("truthval_" + name))      # immutable, only its truth value matters (see truthy)
         if typ in ("any", "func", "opaque"):
             return VOpaque(fresh_name(name))
         if typ == "dyn":
